@@ -59,6 +59,60 @@ def run (sidx : Nat) : St → List Tok → Option St
   | st, [] => some st
   | st, t :: ts => match step sidx st t with | none => none | some st' => run sidx st' ts
 
+/-- the parser with the position (token index) of the offending token, as `_parse_error(m, …)` reports it -/
+def runPos (sidx : Nat) : Nat → St → List Tok → Except Nat St
+  | _, st, [] => .ok st
+  | pos, st, t :: ts => match step sidx st t with | none => .error pos | some st' => runPos sidx (pos + 1) st' ts
+
+theorem runPos_ok_iff (sidx : Nat) (pos : Nat) (st : St) (ts : List Tok) (st' : St) :
+    runPos sidx pos st ts = .ok st' ↔ run sidx st ts = some st' := by
+  induction ts generalizing pos st with
+  | nil => simp [runPos, run]
+  | cons t ts ih =>
+    simp only [runPos, run]
+    cases h : step sidx st t with
+    | none => simp
+    | some s1 => simpa using ih (pos + 1) s1
+
+/-- malformed patterns: two coefficients in a row -/
+theorem coeff_after_coeff (sidx : Nat) (st : St) (h : st.last = some .coeff) (d : Int) : step sidx st (.coeff d) = none := by
+  simp [step, h]
+/-- a blade name directly after a coefficient (missing `^`) or after another blade -/
+theorem blade_after_coeff (sidx : Nat) (st : St) (h : st.last = some .coeff) (i : Nat) : step sidx st (.blade i) = none := by
+  simp [step, h]
+theorem blade_after_blade (sidx : Nat) (st : St) (h : st.last = some .blade) (i : Nat) : step sidx st (.blade i) = none := by
+  simp [step, h]
+/-- dangling operator: the string ends after a sign or a wedge -/
+theorem end_after_sign (sidx : Nat) (st : St) (h : st.last = some .sign) : step sidx st .end_ = none := by
+  simp [step, h]
+theorem end_after_wedge (sidx : Nat) (st : St) (h : st.last = some .wedge) : step sidx st .end_ = none := by
+  simp [step, h]
+/-- an unknown blade name reaches the tokenizer's `unrecognized` rule: always a SyntaxError -/
+theorem unrecognized_error (sidx : Nat) (st : St) : step sidx st .unrecognized = none := rfl
+/-- whitespace and parentheses never change the parser state -/
+theorem space_skip (sidx : Nat) (st : St) : step sidx st .space = some st ∧ step sidx st .lparen = some st ∧ step sidx st .rparen = some st :=
+  ⟨rfl, rfl, rfl⟩
+
+/-- the error position is the index of the first token the state machine rejects -/
+theorem runPos_error_at (sidx : Nat) (pre : List Tok) (bad : Tok) (rest : List Tok) (st0 st : St) (pos : Nat)
+    (hpre : run sidx st0 pre = some st) (hbad : step sidx st bad = none) :
+    runPos sidx pos st0 (pre ++ bad :: rest) = .error (pos + pre.length) := by
+  induction pre generalizing st0 pos with
+  | nil =>
+    simp only [run, Option.some.injEq] at hpre
+    subst hpre
+    simp [runPos, hbad]
+  | cons t ts ih =>
+    simp only [run] at hpre
+    cases h : step sidx st0 t with
+    | none => simp [h] at hpre
+    | some s1 =>
+      simp only [h] at hpre
+      simp only [List.cons_append, runPos, h]
+      rw [ih s1 (pos + 1) hpre]
+      simp only [List.length_cons]
+      congr 1; omega
+
 /-- a printed term: storage index, whether it is the scalar (grade 0), non-zero integer coefficient -/
 structure Term where
   idx : Nat
